@@ -765,14 +765,14 @@ func (cat *Catalog) ReadCatalogFromReader(reader io.Reader) error {
 
 			return err
 		}
-		content := make([]string, incount)
+		content := make([]string, 0)
 		for subIndex := uint64(0); subIndex < incount; subIndex++ {
 			str, err := ReadStringFromReader(reader)
 			if err != nil {
 
 				return err
 			}
-			content[subIndex] = str
+			content = append(content, str)
 		}
 		cat.MemoryExpressionVariableMap[key] = content
 	}
@@ -796,14 +796,14 @@ func (cat *Catalog) ReadCatalogFromReader(reader io.Reader) error {
 
 			return err
 		}
-		content := make([]string, incount)
+		content := make([]string, 0)
 		for subIndex := uint64(0); subIndex < incount; subIndex++ {
 			str, err := ReadStringFromReader(reader)
 			if err != nil {
 
 				return err
 			}
-			content[subIndex] = str
+			content = append(content, str)
 		}
 		cat.MemoryExpressionAtomVariableMap[key] = content
 	}
@@ -1197,14 +1197,14 @@ func (meta *ArgumentListMeta) ReadMetaFrom(reader io.Reader) error {
 		return err
 	}
 
-	meta.ArgumentASTIDs = make([]string, integer)
+	meta.ArgumentASTIDs = make([]string, 0)
 	for index := uint64(0); index < integer; index++ {
 		s, err := ReadStringFromReader(reader)
 		if err != nil {
 
 			return err
 		}
-		meta.ArgumentASTIDs[index] = s
+		meta.ArgumentASTIDs = append(meta.ArgumentASTIDs, s)
 	}
 
 	return nil
@@ -1549,15 +1549,10 @@ func (meta *ConstantMeta) ReadMetaFrom(reader io.Reader) error {
 
 		return err
 	}
-	byteArr := make([]byte, length)
-	readCount, err := reader.Read(byteArr)
+	byteArr, err := readBytesFromReader(reader, length)
 	if err != nil {
 
 		return err
-	}
-	if uint64(readCount) != length {
-
-		return io.ErrShortBuffer
 	}
 	meta.ValueBytes = byteArr
 
@@ -2261,14 +2256,14 @@ func (meta *ThenExpressionListMeta) ReadMetaFrom(reader io.Reader) error {
 		return err
 	}
 
-	meta.ThenExpressionIDs = make([]string, count)
+	meta.ThenExpressionIDs = make([]string, 0)
 	for index := uint64(0); index < count; index++ {
 		s, err := ReadStringFromReader(reader)
 		if err != nil {
 
 			return err
 		}
-		meta.ThenExpressionIDs[index] = s
+		meta.ThenExpressionIDs = append(meta.ThenExpressionIDs, s)
 	}
 
 	return nil
@@ -2556,6 +2551,39 @@ func WriteStringToWriter(writer io.Writer, s string) error {
 	return err
 }
 
+// readChunk bounds how far ahead of the data actually received a read buffer is allocated.
+const readChunk = 64 * 1024
+
+// readBytesFromReader reads exactly count bytes from reader. The buffer grows with the data
+// actually received, so a length prefix that is larger than what the stream holds (a damaged
+// or hostile stream) can not make the loader allocate more than the stream's size plus one chunk.
+func readBytesFromReader(reader io.Reader, count uint64) ([]byte, error) {
+	first := count
+	if first > readChunk {
+		first = readChunk
+	}
+	data := make([]byte, 0, first)
+	for uint64(len(data)) < count {
+		grow := count - uint64(len(data))
+		if grow > readChunk {
+			grow = readChunk
+		}
+		have := len(data)
+		data = append(data, make([]byte, grow)...)
+		c, err := io.ReadFull(reader, data[have:])
+		data = data[:have+c]
+		if err != nil {
+			if err == io.EOF && have > 0 {
+				err = io.ErrUnexpectedEOF
+			}
+
+			return data, err
+		}
+	}
+
+	return data, nil
+}
+
 // ReadStringFromReader read a string from reader.
 func ReadStringFromReader(reader io.Reader) (string, error) {
 	length := make([]byte, 8)
@@ -2567,9 +2595,8 @@ func ReadStringFromReader(reader io.Reader) (string, error) {
 		return "", err
 	}
 	strLen := binary.LittleEndian.Uint64(length)
-	strByte := make([]byte, int(strLen))
-	counter, err = io.ReadFull(reader, strByte)
-	TotalRead += uint64(counter)
+	strByte, err := readBytesFromReader(reader, strLen)
+	TotalRead += uint64(len(strByte))
 	if err != nil {
 
 		return "", err
